@@ -1293,12 +1293,16 @@ impl<H: BuildHasher + Default + Clone + std::fmt::Debug> Ex<H> {
             }
             "eq" => {
                 let (a, b) = (num::<usize>(tok(t, 1)), num::<usize>(tok(t, 2)));
-                let r = match (self.regs.get(a), self.regs.get(b)) {
-                    (Some(Reg::Pq(x)), Some(Reg::Pq(y))) => x == y,
-                    (Some(Reg::Dpq(x)), Some(Reg::Dpq(y))) => x == y,
+                // `!=` may be overridden separately from `==`: it must be its negation
+                let (r, ne) = match (self.regs.get(a), self.regs.get(b)) {
+                    (Some(Reg::Pq(x)), Some(Reg::Pq(y))) => (x == y, x != y),
+                    (Some(Reg::Dpq(x)), Some(Reg::Dpq(y))) => (x == y, x != y),
                     _ => invalid!(out),
                 };
                 p_bool(out, r);
+                if ne == r {
+                    out.push_str(if ne { " and != is true too" } else { " and != is false too" });
+                }
             }
             // ---- capacity -----------------------------------------------
             "reserve" | "reservex" => {
